@@ -47,6 +47,18 @@ EXPLANATION = (
     "decides (5) from scratch - is handed the very string the prefix was found on, never the cut string or a value made from "
     "it (a percent-decoding / whitespace retry of the already-stripped string forgets 'ro.'/'imm.'); a retry by looping back "
     "inside the function is already (5): what was found stays found. "
+    "(17) from_string executed abstractly (helpers in place, module-level tables folded - lists / dicts only when nothing in the "
+    "module re-binds or mutates them -, `for` over a table unrolled with tuple targets, next()/any()/comprehensions over it "
+    "evaluated, dict literals and lookups followed) on <no prefix | 'imm.' | 'ro.'> + <BASE_STRING of each of the 18 cap classes | "
+    "no known kind> + anything, with deep_immutable False and True: the class accepted is writeable only with deep_immutable "
+    "false and no alleged prefix, mutable only with deep_immutable false and no 'imm.' - no prefix branch or table row raises a "
+    "permission the context has ruled out (can_be_mutable <= not deep_immutable, can_be_writeable <= not deep_immutable and no "
+    "prefix), whatever the shape of the dispatch.  Where the class parsed is picked by value (a row of a table: `cls.init_from_string(s)`) "
+    "the path-wise clauses (5), (9), (10), (13), (16) have no branch per class to attach to and are decided on the same scenarios "
+    "instead: (5) as (17); (9)/(16) every outcome is a parse of a cap class or an UnknownURI, a value out of module-level state "
+    "stops the analysis; (10) a gated kind the context does not allow comes back as UnknownURI with an error that is not None; "
+    "(13) behind an alleged prefix the parser is given the input minus exactly that prefix and a refused kind is recognised.  An "
+    "outcome that cannot be classified, or a violation on a path through a test the execution could not evaluate, is exit 2. "
     "Prefix tests are read path-wise in all of these: `X.startswith((P, Q))` is `P or Q` - one of them on its true edge "
     "(enough where some alleged prefix must have been found; both possible where a found prefix forbids something, until a "
     "later test of the same string tells them apart), neither on its false edge; 'imm.' and 'ro.' exclude each other. "
@@ -60,7 +72,7 @@ EXPLANATION = (
     "that is a part / image of a given string is reported - any other call stops the analysis with exit 2 rather than being "
     "judged) and its blacklist handling; in (16) a string handed on that was made from the whole tested string by a call the "
     "analysis cannot see through (unquote(u)) stops the analysis with exit 2: whether it keeps the prefix is value-level.")
-TECHNIQUE = "static analysis: def-use dependence of constructor arguments, constant tables cross-checked, CFG dominance / small abstract interpretation (copies of the given caps, prefix/truth facts per path) in from_string and UnknownNode.__init__, provenance of from_string's return values through reaching definitions and helper calls, path-wise monitors (refusal -> error set; prefix found -> prefix cut; parse error examined -> ro_uri stored), injectivity of the node-cache key in the parsed string over all reaching definitions and through the package functions that build it; value provenance (whole / cut / derived) of the string handed to every re-entry of the parse after a prefix was found"
+TECHNIQUE = "static analysis: def-use dependence of constructor arguments, constant tables cross-checked, CFG dominance / small abstract interpretation (copies of the given caps, prefix/truth facts per path) in from_string and UnknownNode.__init__, provenance of from_string's return values through reaching definitions and helper calls, path-wise monitors (refusal -> error set; prefix found -> prefix cut; parse error examined -> ro_uri stored), injectivity of the node-cache key in the parsed string over all reaching definitions and through the package functions that build it; value provenance (whole / cut / derived) of the string handed to every re-entry of the parse after a prefix was found; bounded abstract execution of from_string (helpers, folded module-level tables, unrolled table loops) over all <alleged prefix> x <cap kind> x <context> scenarios"
 
 URI_MOD = "allmydata.uri"
 SECRET_FOR_RO = {"writekey"}
@@ -413,6 +425,7 @@ class _ParseWalk:
         self.reentries = []      # (fn, ctx param, node, call, callee, callee's ctx param): the kind dispatch is (re-)entered
         self.funcs = {}          # qual -> (fn, ctx param)
         self._done = set()
+        self.by_value = None     # why the walk gave up: the class parsed is selected by value (table row), not by a branch
 
     def walk(self, fn, di):
         old = self.funcs.get(fn.qual)
@@ -501,6 +514,8 @@ class _ParseWalk:
                 return
             if isinstance(k, ClassInfo) and k.name == "UnknownURI":
                 return self._leaf(fn, n, "UnknownURI")
+            if k is None and any(isinstance(x, ast.Name) and x.id in locs for x in ast.walk(f.value)):
+                raise _ByValue("%s parses %s, a class picked by value" % (fn.qual, src(fn, e)))
             raise AnalysisError("%s: %s is not a cap class" % (fn.qual, src(fn, f.value)))
         tgt = idx.resolve_expr(fn.module, f)
         if isinstance(tgt, ClassInfo):
@@ -530,6 +545,8 @@ class _ParseWalk:
             path = attr_path(f.value)
             if path and path.split(".")[0] not in locs:
                 return self.container(env, n, path, e.args[0], e)
+        if tgt is None and isinstance(f, ast.Name) and f.id in locs:
+            raise _ByValue("%s returns %s, the call of a class picked by value" % (fn.qual, src(fn, e)))
         raise AnalysisError("%s returns %s: cannot classify" % (fn.qual, src(fn, e)))
 
     def container(self, env, n, path, key, e):
@@ -862,6 +879,551 @@ class _CapFlow:
         return False
 
 
+# ------------------------------------------------------------------ what from_string returns, scenario by scenario
+class _ByValue(AnalysisError):
+    """The kind dispatch picks the class to parse by *value* (a row of a table, a dict entry), not by a branch per
+    class: the path-wise monitors have no branch to attach to; the parse is decided by abstract execution instead."""
+
+
+_SUNK = ("?",)
+_S_TYPES = {"bytes": bytes, "str": str, "int": int, "bool": bool, "tuple": tuple}
+_S_MUTATORS = {"append", "extend", "insert", "remove", "pop", "popitem", "clear", "update", "setdefault", "add", "discard",
+               "sort", "reverse", "__setitem__", "__delitem__"}
+
+
+def _s_const(v):
+    try:
+        hash(v)
+    except TypeError:
+        return _SUNK
+    return ("c", v)
+
+
+def _s_truth(v):
+    """True / False / None (not known) of an abstract value."""
+    if v[0] == "c":
+        return bool(v[1])
+    if v[0] == "h":
+        return True if v[1] else None
+    if v[0] in ("t", "d"):
+        return bool(v[1])
+    return None
+
+
+def _s_elements(v):
+    """The members of an abstract iterable in order (None: not known)."""
+    if v[0] == "c" and isinstance(v[1], tuple):
+        return [_s_const(x) for x in v[1]]
+    if v[0] == "t":
+        return list(v[1])
+    if v[0] == "d":
+        return [_s_const(k) for (k, _x) in v[1]]
+    return None
+
+
+def _s_tuple(vals):
+    vals = tuple(vals)
+    if all(x[0] == "c" for x in vals):
+        return ("c", tuple(x[1] for x in vals))
+    return ("t", vals)
+
+
+class _Sem:
+    """Bounded abstract execution of the parse on ONE input whose leading bytes are known.
+
+    Values: ('c', constant) - classes and functions of the package are the constants ('K', qual) / ('F', qual);
+    ('h', head) - a byte string with these leading bytes, nothing known about the rest; ('t', members) / ('d', items) -
+    a tuple / dict with abstract members; ('m', name) - module-level state that functions of the module mutate, or a
+    value read out of it; ('o', 'parse', class qual, argument) - what K.init_from_string(arg) / K(..)
+    of a cap class gives; ('o', 'unknown', error) - UnknownURI(.., error); ('o', 'new', qual) - an instance of another
+    class; ('?',) - not known.  Module-level tables are folded (a list / dict only when nothing in the module can
+    mutate or re-bind it); calls of plain package functions are executed in place (bounded depth); `for` over a known
+    table is unrolled, with tuple targets; comprehensions / any / all / next over known tables are evaluated.
+    'exc' edges are not followed (the scenarios are well-formed inputs).  A test whose truth is not known is followed
+    both ways and the outcome is marked inexact."""
+
+    MAX_DEPTH = 4
+
+    def __init__(self, idx, F, byq):
+        self.idx, self.F, self.byq = idx, F, byq
+        self.states = 0
+        self._mut, self._glob, self._k, self._f = {}, {}, {}, {}
+
+    # -- module level
+    def mutated(self, m):
+        hit = self._mut.get(m.name)
+        if hit is None:
+            hit = set()
+            for x in ast.walk(m.tree):
+                if isinstance(x, ast.Global):
+                    hit |= set(x.names)
+                elif isinstance(x, (ast.Subscript, ast.Attribute)) and isinstance(x.ctx, (ast.Store, ast.Del)) \
+                        and isinstance(x.value, ast.Name):
+                    hit.add(x.value.id)
+                elif isinstance(x, ast.Call) and isinstance(x.func, ast.Attribute) and x.func.attr in _S_MUTATORS \
+                        and isinstance(x.func.value, ast.Name):
+                    hit.add(x.func.value.id)
+                elif isinstance(x, ast.AugAssign) and isinstance(x.target, ast.Name):
+                    hit.add(x.target.id)
+            self._mut[m.name] = hit
+        return hit
+
+    def glob(self, m, name):
+        key = (m.name, name)
+        if key in self._glob:
+            return self._glob[key]
+        self._glob[key] = _SUNK
+        v = _SUNK
+        tgt = self.idx.resolve_name(m, name)
+        vals = m.assigns.get(name)
+        if isinstance(tgt, ClassInfo) and not vals:
+            self._k[tgt.qual] = tgt
+            v = ("c", ("K", tgt.qual))
+        elif isinstance(tgt, FuncInfo) and not vals:
+            self._f[tgt.qual] = tgt
+            v = ("c", ("F", tgt.qual))
+        elif vals and name in self.mutated(m):
+            v = ("m", name)                                   # module-level state that outlives the call
+        elif vals and len(vals) == 1:
+            v = self.ev(vals[0], {}, m, self.MAX_DEPTH)       # no calls of package functions at fold time
+            if v == _SUNK:
+                try:
+                    v = _s_const(self.F.name(name, m, None))
+                except Exception:
+                    v = _SUNK
+        elif not vals and tgt is None:
+            try:
+                v = _s_const(self.F.name(name, m, None))
+            except Exception:
+                v = _SUNK
+        self._glob[key] = v
+        return v
+
+    # -- expressions
+    def ev(self, e, env, m, depth):
+        ev = lambda x: self.ev(x, env, m, depth)
+        if isinstance(e, ast.Constant):
+            return _s_const(e.value)
+        if isinstance(e, ast.Name):
+            return env[e.id] if e.id in env else self.glob(m, e.id)
+        if isinstance(e, ast.UnaryOp) and isinstance(e.op, ast.Not):
+            t = _s_truth(ev(e.operand))
+            return _SUNK if t is None else ("c", not t)
+        if isinstance(e, ast.BoolOp):
+            last = _SUNK
+            for x in e.values:
+                last = ev(x)
+                t = _s_truth(last)
+                if t is None:
+                    return _SUNK
+                if t != isinstance(e.op, ast.And):
+                    return last
+            return last
+        if isinstance(e, ast.IfExp):
+            t = _s_truth(ev(e.test))
+            return _SUNK if t is None else ev(e.body if t else e.orelse)
+        if isinstance(e, ast.Compare):
+            if len(e.ops) != 1:
+                return _SUNK
+            return self._compare(e.ops[0], ev(e.left), ev(e.comparators[0]))
+        if isinstance(e, ast.Subscript):
+            return self._subscript(e, ev)
+        if isinstance(e, (ast.Tuple, ast.List)):
+            if any(isinstance(x, ast.Starred) for x in e.elts):
+                return _SUNK
+            return _s_tuple(ev(x) for x in e.elts)
+        if isinstance(e, ast.Dict):
+            items = []
+            for k, x in zip(e.keys, e.values):
+                kv = ev(k) if k is not None else _SUNK
+                if kv[0] != "c":
+                    return _SUNK
+                items = [it for it in items if it[0] != kv[1]] + [(kv[1], ev(x))]
+            return ("d", tuple(items))
+        if isinstance(e, ast.BinOp) and isinstance(e.op, ast.Add):
+            a, b = ev(e.left), ev(e.right)
+            if a[0] == "c" and b[0] == "c":
+                try:
+                    return _s_const(a[1] + b[1])
+                except Exception:
+                    return _SUNK
+            if a[0] == "c" and isinstance(a[1], bytes) and b[0] == "h":
+                return ("h", a[1] + b[1])
+            if a[0] == "h" and (b[0] == "h" or (b[0] == "c" and isinstance(b[1], bytes))):
+                return a
+            if {a[0], b[0]} <= {"c", "t"} and all(_s_elements(x) is not None for x in (a, b)):
+                return _s_tuple(_s_elements(a) + _s_elements(b))
+            return _SUNK
+        if isinstance(e, (ast.GeneratorExp, ast.ListComp)):
+            return self._comprehension(e, env, m, depth)
+        if isinstance(e, ast.Call):
+            return self._call(e, env, m, depth)
+        if any(isinstance(x, ast.Name) and x.id in env for x in ast.walk(e)):
+            return _SUNK
+        try:
+            return _s_const(self.F.fold(e, m, None))
+        except Exception:
+            return _SUNK
+
+    def _compare(self, op, a, b):
+        pos = isinstance(op, (ast.Eq, ast.Is, ast.In))
+        if isinstance(op, (ast.Eq, ast.NotEq)):
+            if a[0] == "c" and b[0] == "c":
+                return ("c", (a[1] == b[1]) == pos)
+            for x, y in ((a, b), (b, a)):
+                if x[0] == "h" and y[0] == "c" and not (isinstance(y[1], bytes) and y[1].startswith(x[1])):
+                    return ("c", not pos)
+            return _SUNK
+        if isinstance(op, (ast.Is, ast.IsNot)):
+            if a[0] == "c" and b[0] == "c":
+                if a[1] is None or b[1] is None or (isinstance(a[1], bool) and isinstance(b[1], bool)):
+                    return ("c", (a[1] is b[1]) == pos)
+                if a[1] != b[1] or type(a[1]) is not type(b[1]):
+                    return ("c", not pos)
+                if isinstance(a[1], tuple) and a[1][:1] in (("K",), ("F",)):
+                    return ("c", pos)
+                return _SUNK
+            for x, y in ((a, b), (b, a)):
+                if x == ("c", None) and y[0] in ("h", "t", "d", "o"):
+                    return ("c", not pos)
+            return _SUNK
+        if isinstance(op, (ast.In, ast.NotIn)):
+            if a[0] == "c" and b[0] == "d":
+                return ("c", any(k == a[1] for (k, _x) in b[1]) == pos)
+            if a[0] == "c" and b[0] == "c" and isinstance(b[1], (tuple, bytes, str, frozenset)):
+                try:
+                    return ("c", (a[1] in b[1]) == pos)
+                except Exception:
+                    return _SUNK
+        return _SUNK
+
+    def _subscript(self, e, ev):
+        v, sl = ev(e.value), e.slice
+        if v[0] == "m":
+            return v
+        if isinstance(sl, ast.Slice):
+            if sl.step is not None:
+                return _SUNK
+            lo = ev(sl.lower) if sl.lower is not None else ("c", 0)
+            hi = ev(sl.upper) if sl.upper is not None else ("c", None)
+            if lo[0] != "c" or hi[0] != "c" or type(lo[1]) is not int or lo[1] < 0 \
+                    or not (hi[1] is None or (type(hi[1]) is int and hi[1] >= 0)):
+                return _SUNK
+            if v[0] == "h":
+                if hi[1] is not None and hi[1] <= len(v[1]):
+                    return ("c", v[1][lo[1]:hi[1]])
+                return ("h", v[1][lo[1]:hi[1]])
+            if v[0] == "c" and isinstance(v[1], (bytes, str, tuple)):
+                return ("c", v[1][lo[1]:hi[1]])
+            if v[0] == "t":
+                return _s_tuple(v[1][lo[1]:hi[1]])
+            return _SUNK
+        i = ev(sl)
+        if i[0] != "c":
+            return _SUNK
+        if v[0] == "d":
+            for (k, x) in v[1]:
+                if k == i[1] and (k is None) == (i[1] is None):
+                    return x
+            return _SUNK
+        if type(i[1]) is not int:
+            return _SUNK
+        if v[0] == "c" and isinstance(v[1], (bytes, str, tuple)) and -len(v[1]) <= i[1] < len(v[1]):
+            return _s_const(v[1][i[1]])
+        if v[0] == "t" and -len(v[1]) <= i[1] < len(v[1]):
+            return v[1][i[1]]
+        if v[0] == "h" and 0 <= i[1] < len(v[1]):
+            return ("c", v[1][i[1]])
+        return _SUNK
+
+    def bind(self, t, v, env):
+        if isinstance(t, ast.Name):
+            env[t.id] = v
+        elif isinstance(t, (ast.Tuple, ast.List)):
+            els = _s_elements(v) if v[0] in ("c", "t") else None
+            if els is None or len(els) != len(t.elts) or any(isinstance(x, ast.Starred) for x in t.elts):
+                for x in ast.walk(t):
+                    if isinstance(x, ast.Name):
+                        env[x.id] = _SUNK
+            else:
+                for tt, vv in zip(t.elts, els):
+                    self.bind(tt, vv, env)
+        elif isinstance(t, ast.Attribute) and attr_path(t):
+            env[attr_path(t)] = v
+        elif isinstance(t, ast.Subscript):
+            for x in ast.walk(t.value):
+                if isinstance(x, ast.Name) and x.id in env:
+                    env[x.id] = _SUNK               # a member of a local container is replaced: contents no longer known
+
+    def _comprehension(self, e, env, m, depth):
+        if len(e.generators) != 1 or e.generators[0].is_async:
+            return _SUNK
+        g = e.generators[0]
+        els = _s_elements(self.ev(g.iter, env, m, depth))
+        if els is None or len(els) > 64:
+            return _SUNK
+        out = []
+        for x in els:
+            env2 = dict(env)
+            self.bind(g.target, x, env2)
+            keep = True
+            for c in g.ifs:
+                t = _s_truth(self.ev(c, env2, m, depth))
+                if t is None:
+                    return _SUNK
+                keep = keep and t
+            if keep:
+                out.append(self.ev(e.elt, env2, m, depth))
+        return _s_tuple(out)
+
+    def _call(self, e, env, m, depth):
+        ev = lambda x: self.ev(x, env, m, depth)
+        f = e.func
+        if any(isinstance(a, ast.Starred) for a in e.args) or any(kw.arg is None for kw in e.keywords):
+            return _SUNK
+        if isinstance(f, ast.Name) and f.id not in env and self.idx.resolve_name(m, f.id) is None and f.id not in m.assigns:
+            nm, args = f.id, e.args
+            if nm == "isinstance" and len(args) == 2 and not e.keywords:
+                v = ev(args[0])
+                ts = args[1].elts if isinstance(args[1], ast.Tuple) else [args[1]]
+                if all(isinstance(t, ast.Name) and t.id in _S_TYPES and t.id not in env for t in ts):
+                    if v[0] == "h":
+                        return ("c", any(t.id == "bytes" for t in ts))
+                    if v[0] == "c" and not (isinstance(v[1], tuple) and v[1][:1] in (("K",), ("F",))):
+                        return ("c", isinstance(v[1], tuple(_S_TYPES[t.id] for t in ts)))
+                    if v[0] == "t":
+                        return ("c", any(t.id == "tuple" for t in ts))
+                return _SUNK
+            if nm == "len" and len(args) == 1 and not e.keywords:
+                v = ev(args[0])
+                if v[0] == "c" and isinstance(v[1], (bytes, str, tuple)):
+                    return ("c", len(v[1]))
+                if v[0] in ("t", "d"):
+                    return ("c", len(v[1]))
+                return _SUNK
+            if nm == "bool" and len(args) == 1 and not e.keywords:
+                t = _s_truth(ev(args[0]))
+                return _SUNK if t is None else ("c", t)
+            if nm in ("any", "all") and len(args) == 1 and not e.keywords:
+                els = _s_elements(ev(args[0]))
+                ts = [_s_truth(x) for x in els] if els is not None else [None]
+                if any(t is None for t in ts):
+                    return _SUNK
+                return ("c", any(ts) if nm == "any" else all(ts))
+            if nm in ("tuple", "list") and len(args) == 1 and not e.keywords:
+                els = _s_elements(ev(args[0]))
+                return _SUNK if els is None else _s_tuple(els)
+            if nm == "next" and len(args) in (1, 2) and not e.keywords:
+                els = _s_elements(ev(args[0]))
+                if els is None:
+                    return _SUNK
+                if els:
+                    return els[0]
+                return ev(args[1]) if len(args) == 2 else _SUNK
+            return _SUNK
+        if isinstance(f, ast.Attribute):
+            if f.attr == "init_from_string":
+                recv = ev(f.value)
+                if recv[0] == "c" and isinstance(recv[1], tuple) and recv[1][:1] == ("K",) and recv[1][1] in self.byq:
+                    return ("o", "parse", recv[1][1], ev(e.args[0]) if e.args else _SUNK)
+                return _SUNK
+            recv = ev(f.value)
+            if recv[0] == "m":
+                return recv if f.attr in _CONTAINER_READS else _SUNK
+            if f.attr == "startswith" and len(e.args) == 1 and not e.keywords:
+                p = ev(e.args[0])
+                if p[0] != "c":
+                    return _SUNK
+                ps = p[1] if isinstance(p[1], tuple) else (p[1],)
+                if not ps or not all(isinstance(x, bytes) for x in ps):
+                    return _SUNK
+                if recv[0] == "c" and isinstance(recv[1], bytes):
+                    return ("c", recv[1].startswith(ps))
+                if recv[0] == "h":
+                    res = False
+                    for x in ps:
+                        if recv[1].startswith(x):
+                            return ("c", True)
+                        if x.startswith(recv[1]):
+                            res = None
+                    return _SUNK if res is None else ("c", False)
+                return _SUNK
+            if f.attr == "removeprefix" and len(e.args) == 1 and not e.keywords:
+                p = ev(e.args[0])
+                if p[0] == "c" and isinstance(p[1], bytes):
+                    if recv[0] == "c" and isinstance(recv[1], bytes):
+                        return ("c", recv[1].removeprefix(p[1]))
+                    if recv[0] == "h":
+                        if recv[1].startswith(p[1]):
+                            return ("h", recv[1][len(p[1]):])
+                        return _SUNK if p[1].startswith(recv[1]) else recv
+                return _SUNK
+            if recv[0] == "d" and not e.keywords:
+                if f.attr == "get" and len(e.args) in (1, 2):
+                    k = ev(e.args[0])
+                    if k[0] != "c":
+                        return _SUNK
+                    for (kk, x) in recv[1]:
+                        if kk == k[1] and (kk is None) == (k[1] is None):
+                            return x
+                    return ev(e.args[1]) if len(e.args) == 2 else ("c", None)
+                if f.attr == "items" and not e.args:
+                    return _s_tuple(_s_tuple((_s_const(k), x)) for (k, x) in recv[1])
+                if f.attr == "keys" and not e.args:
+                    return _s_tuple(_s_const(k) for (k, _x) in recv[1])
+                if f.attr == "values" and not e.args:
+                    return _s_tuple(x for (_k, x) in recv[1])
+            if recv != _SUNK:
+                return _SUNK
+        fv = ev(f)
+        if fv[0] == "c" and isinstance(fv[1], tuple) and fv[1][:1] == ("K",):
+            q = fv[1][1]
+            if q in self.byq:
+                return ("o", "parse", q, _SUNK)
+            ci = self._k.get(q)
+            if ci is not None and ci.name == "UnknownURI":
+                err = [a for (p, a) in _ctor_pairs(self.idx, ci, e) if p == "error"]
+                return ("o", "unknown", ev(err[0]) if err else ("c", None))
+            return ("o", "new", q)
+        if fv[0] == "c" and isinstance(fv[1], tuple) and fv[1][:1] == ("F",):
+            tgt = self._f.get(fv[1][1])
+            if tgt is None or depth >= self.MAX_DEPTH or tgt.cls is not None or tgt.node.decorator_list \
+                    or tgt.node.args.vararg or tgt.node.args.kwarg or isinstance(tgt.node, ast.AsyncFunctionDef):
+                return _SUNK
+            given = {}
+            ps = list(tgt.params)
+            for i, a in enumerate(e.args):
+                if i >= len(ps):
+                    return _SUNK
+                given[ps[i]] = ev(a)
+            for kw in e.keywords:
+                if kw.arg not in ps or kw.arg in given:
+                    return _SUNK
+                given[kw.arg] = ev(kw.value)
+            if any(v_[0] in ("d", "m") for v_ in given.values()):
+                return _SUNK                            # the callee could change the container in place: not followed
+            outs = self.run(tgt, given, depth + 1)
+            if len(outs) == 1 and outs[0][1] == "return" and outs[0][3]:
+                return outs[0][2]
+            return _SUNK
+        return _SUNK
+
+    # -- one function
+    def defaults(self, fn):
+        a = fn.node.args
+        pos = list(a.posonlyargs) + list(a.args)
+        out = {}
+        for p, d in zip(pos[len(pos) - len(a.defaults):], a.defaults):
+            out[p.arg] = self.ev(d, {}, fn.module, self.MAX_DEPTH)
+        for p, d in zip(a.kwonlyargs, a.kw_defaults):
+            if d is not None:
+                out[p.arg] = self.ev(d, {}, fn.module, self.MAX_DEPTH)
+        for p in pos + list(a.kwonlyargs):
+            out.setdefault(p.arg, _SUNK)
+        return out
+
+    def run(self, fn, given, depth=0):
+        """-> [(node, 'return' | 'raise' | 'end', value, exact, witness)]"""
+        cfg, m = fn.cfg(), fn.module
+        env0 = self.defaults(fn)
+        env0.update(given)
+        nested = set()
+
+        def walk(node, inside):
+            for ch in ast.iter_child_nodes(node):
+                if isinstance(ch, (ast.FunctionDef, ast.AsyncFunctionDef, ast.Lambda, ast.ClassDef)):
+                    continue
+                if inside and isinstance(ch, (ast.For, ast.AsyncFor)):
+                    nested.add(id(ch))
+                walk(ch, inside or isinstance(ch, (ast.For, ast.AsyncFor, ast.While)))
+        walk(fn.node, False)
+
+        def freeze(env, exact):
+            return (tuple(sorted(env.items(), key=lambda kv: kv[0])), exact)
+
+        def transfer(n, lab, nxt, state):
+            if lab == "exc":
+                return None
+            items, exact = state
+            env = dict(items)
+            a = n.ast
+            touched = False
+            for e_ in (node_exprs(n) if n.kind in ("stmt", "test", "iter", "with") else []):
+                for x in own_nodes(e_):
+                    if isinstance(x, ast.Call) and isinstance(x.func, ast.Attribute) and x.func.attr in _S_MUTATORS \
+                            and isinstance(x.func.value, ast.Name) and env.get(x.func.value.id, _SUNK) != _SUNK:
+                        env[x.func.value.id] = _SUNK    # a local container changed in place: contents no longer known
+                        touched = True
+            if n.kind == "stmt" and isinstance(a, ast.Delete):
+                for x in ast.walk(a):
+                    if isinstance(x, ast.Name) and x.id in env:
+                        env[x.id] = _SUNK
+                        touched = True
+            if touched:
+                items = freeze(env, exact)[0]
+                state = (items, exact)
+            if n.kind == "test":
+                t = _s_truth(self.ev(a, env, m, depth))
+                if isinstance(lab, tuple) and lab[0] in ("T", "F"):
+                    if t is None:
+                        return (items, False)
+                    return state if (lab[0] == "T") == t else None
+                return (items, False)
+            if n.kind == "stmt" and isinstance(a, (ast.Return, ast.Raise)):
+                return None
+            if n.kind == "iter" and lab in ("iter", "done"):
+                els = None if id(a) in nested else _s_elements(self.ev(a.iter, env, m, depth))
+                if els is not None and len(els) <= 64:
+                    key = "!it%d" % n.id
+                    i = env.get(key, ("c", 0))[1]
+                    if lab == "iter":
+                        if i >= len(els):
+                            return None
+                        self.bind(a.target, els[i], env)
+                        env[key] = ("c", i + 1)
+                    else:
+                        if i < len(els):
+                            return None
+                        env.pop(key, None)
+                    return freeze(env, exact)
+                for x in ast.walk(a.target):
+                    if isinstance(x, ast.Name):
+                        env[x.id] = _SUNK
+                return freeze(env, False)
+            if n.kind == "stmt" and isinstance(a, ast.Assign):
+                v = self.ev(a.value, env, m, depth)
+                for t in a.targets:
+                    self.bind(t, v, env)
+                return freeze(env, exact)
+            if n.kind == "stmt" and isinstance(a, ast.AnnAssign) and a.value is not None:
+                self.bind(a.target, self.ev(a.value, env, m, depth), env)
+                return freeze(env, exact)
+            if n.kind == "stmt" and isinstance(a, ast.AugAssign):
+                self.bind(a.target, self.ev(aug_value(a), env, m, depth), env)
+                return freeze(env, exact)
+            for st in node_stores(n):
+                if not st.endswith("[]"):
+                    env[st] = _SUNK
+            return freeze(env, exact)
+
+        visited, parent = explore(cfg, freeze(env0, True), transfer, max_states=20000)
+        self.states += len(visited)
+        out = []
+        for (i, st) in sorted(visited, key=lambda x: (x[0], not x[1][1], repr(x[1][0]))):
+            n = cfg.nodes[i]
+            env = dict(st[0])
+            if n.kind == "stmt" and isinstance(n.ast, ast.Return):
+                kind = "return"
+                val = self.ev(n.ast.value, env, m, depth) if n.ast.value is not None else ("c", None)
+            elif (n.kind == "stmt" and isinstance(n.ast, ast.Raise)) or n.kind == "raise":
+                kind, val = "raise", _SUNK
+            elif n.kind == "exit":
+                kind, val = "end", ("c", None)
+            else:
+                continue
+            out.append((n, kind, val, st[1], witness(cfg, parent, (i, st)) if depth == 0 else None))
+        return out
+
 
 # --------------------------------------------------------------------- run
 def run(ctx: Context):
@@ -1106,9 +1668,115 @@ def run(ctx: Context):
             if "deep_immutable" not in fs.params:
                 raise AnchorVanished("from_string has no deep_immutable parameter")
             w = _ParseWalk(idx, byq)
-            w.walk(fs, "deep_immutable")
+            try:
+                w.walk(fs, "deep_immutable")
+            except _ByValue as e:
+                # table-driven dispatch: no branch per class for the path-wise monitors of C16.5/.9/.10/.13/.16 to
+                # attach to; each of them decides its clause on the abstract execution of the scenarios instead
+                w = _ParseWalk(idx, byq)
+                w.by_value = str(e)
             _pw["w"] = w
         return _pw["w"]
+
+    # Scenarios: from_string on <alleged prefix or none> + <BASE_STRING of a cap class, or no known kind> + anything,
+    # deep_immutable False / True, executed abstractly (_Sem): through helpers, module-level tables, loops over them.
+    _sc = {}
+
+    def scenarios():
+        if "v" not in _sc:
+            fs = idx.func("uri:from_string")
+            ps = first_positional_params(fs)
+            if not ps or "deep_immutable" not in fs.params:
+                raise AnchorVanished("from_string(u, deep_immutable, ..) signature changed")
+            sem = _Sem(idx, F, byq)
+            heads = []
+            for ci in every:
+                try:
+                    b = F.class_attr(ci, "BASE_STRING")
+                except NotConstant as e:
+                    raise AnalysisError("cannot fold %s.BASE_STRING: %s" % (ci.qual, e))
+                if not isinstance(b, bytes) or not b:
+                    raise AnalysisError("%s.BASE_STRING is not a non-empty bytes constant" % ci.qual)
+                heads.append((ci, b))
+            heads.append((None, b"\x00"))
+            rows = []
+            for (ci, b) in heads:
+                for al in ("", "imm", "ro"):
+                    for di in (False, True):
+                        head = (PREFIX[al] if al else b"") + b
+                        outs = sem.run(fs, {ps[0]: ("h", head), "deep_immutable": ("c", di)})
+                        if not outs:
+                            raise AnalysisError("from_string(%r.., deep_immutable=%s): no outcome found" % (head, di))
+                        rows.append((ci, b, al, di, head, outs))
+            _sc["v"] = (fs, sem, rows)
+        return _sc["v"]
+
+    def sc_check(r, what):
+        """Decide one clause on every scenario.  what: 'perm' - a writeable class is parsed only with deep_immutable
+        false and no alleged prefix, a mutable one only with deep_immutable false and no 'imm.'; 'refusal' - a gated
+        kind that the context does not allow comes back as UnknownURI with an error; 'cut' - behind an alleged prefix
+        the parser gets the input minus exactly that prefix, and a refused kind is recognised (error set); 'leaves' -
+        every outcome is a parse of a cap class or an UnknownURI.  -> number of scenarios that expect a refusal."""
+        (fs, sem, rows) = scenarios()
+        r.count(sem.states)
+        n_refuse, sited, reported = 0, set(), set()
+        try:
+            memo_decided = parse_walk().by_value is None    # C16.9 decides the values remembered across calls path-wise
+        except AnalysisError:
+            memo_decided = False
+        for (ci, b, al, di, head, outs) in rows:
+            if (b, al) not in sited:
+                sited.add((b, al))
+                r.site(fs, None, "scenario %r.. (%s)" % ((PREFIX[al] if al else b"") + b, ci.name if ci else "no known kind"))
+            allowed_w = not di and not al
+            allowed_m = not di and al != "imm"
+            refuse = ci is not None and ((RO[ci.qual] is not True and not allowed_w) or
+                                         (RO[ci.qual] is True and MUT[ci.qual] is not False and not allowed_m))
+            n_refuse += bool(refuse)
+            scen = "from_string(%r.., deep_immutable=%s)" % (head, di)
+            for (n, kind, val, exact, w) in outs:
+                if kind == "return" and val[0] == "o" and val[1] in ("parse", "unknown"):
+                    pass
+                elif kind == "return" and val[0] == "m" and memo_decided:
+                    continue
+                else:
+                    raise AnalysisError("%s ends in %s %s: cannot tell what it gives (path: %s)" % (
+                        scen, kind, src(fs, n.ast) if n.ast is not None else "", w.brief(12) if w else "?"))
+                bad = construct = None
+                if val[1] == "parse":
+                    k = byq[val[2]]
+                    wr, mu = RO[k.qual] is not True, MUT[k.qual] is not False
+                    if what == "perm" and ((wr and not allowed_w) or (not wr and mu and not allowed_m)):
+                        construct = k.qual
+                        bad = "%s gives a %s %s: %s - the permission in force when the class is accepted is higher " \
+                              "than the context allows (can_be_mutable <= not deep_immutable and no 'imm.'; can_be_writeable " \
+                              "<= not deep_immutable and no 'imm.'/'ro.')" % (
+                                  scen, "writeable" if wr else "mutable", k.name,
+                                  ("behind the %r prefix the deep-immutable context no longer counts" % PREFIX[al]) if al and di
+                                  else ("the %r prefix did not clear the flag guarding it" % PREFIX[al]) if al
+                                  else "the deep-immutable context is ignored")
+                    elif what == "cut" and al:
+                        if val[3][0] != "h":
+                            raise AnalysisError("%s: cannot tell which string %s is given" % (scen, src(fs, n.ast)))
+                        if val[3][1] != b:
+                            construct = fs
+                            bad = "%s hands the parser of %s a string starting %r, not the input minus exactly the alleged " \
+                                  "prefix %r" % (scen, k.name, val[3][1], PREFIX[al])
+                elif refuse and (what == "refusal" or (what == "cut" and al)):
+                    if val[2] == _SUNK:
+                        raise AnalysisError("%s: cannot tell whether the UnknownURI of %s carries an error" % (scen, src(fs, n.ast)))
+                    if val[2] == ("c", None):
+                        construct = fs
+                        bad = "%s refuses the %s but returns an UnknownURI without error: the refusal is not reported, " \
+                              "UnknownNode keeps the cap as an acceptable read-only/immutable one" % (scen, ci.name)
+                if bad:
+                    if not exact:
+                        raise AnalysisError("%s: %s - on a path through a test that could not be evaluated: cannot decide" % (scen, bad))
+                    key = (what, construct if isinstance(construct, str) else construct.qual, al, di, n.id)
+                    if key not in reported:
+                        reported.add(key)
+                        r.violation(construct, fs.loc(n.ast), "%s (path: %s)" % (bad, w.brief(14)), w)
+        return n_refuse
 
     with ctx.rule("C16.5", "R3", "from_string (and the helpers it returns through): a writeable kind is parsed only on paths that "
                   "found a flag true whose value there is `not deep_immutable` and that met neither alleged prefix, a mutable "
@@ -1119,7 +1787,9 @@ def run(ctx: Context):
         by_fn = {}
         for (fn, di, n, k, call) in pw.sites:
             by_fn.setdefault(fn.qual, (fn, di, []))[2].append((n, k))
-        if not by_fn and not pw.lost:
+        if pw.by_value:
+            sc_check(r, "perm")
+        elif not by_fn and not pw.lost:
             raise AnchorVanished("no K.init_from_string(..) is returned by from_string or its helpers")
         plain = N()
         for q in sorted(by_fn):
@@ -1622,6 +2292,8 @@ def run(ctx: Context):
                   "(K.init_from_string / UnknownURI, directly or through helpers given deep_immutable unchanged); a value "
                   "remembered across calls is looked up and stored under a key that includes the context", expected=20) as r:
         pw = parse_walk()
+        if pw.by_value:
+            sc_check(r, "leaves")
         for (fn, n, what) in pw.leaves:
             r.site(fn, n.ast, what)
         r.count(len(pw.leaves))
@@ -1635,7 +2307,7 @@ def run(ctx: Context):
                   "UnknownNode and the node maker drop the cap only when the error says so", expected=1) as r:
         pw = parse_walk()
         unk = idx.cls("uri:UnknownURI")
-        n_refusals = 0
+        n_refusals = sc_check(r, "refusal") if pw.by_value else 0
         gated = sorted({fn.qual for (fn, di, n, k, call) in pw.sites if RO[k.qual] is not True or MUT[k.qual] is not False})
         for q in gated:
             (fn, di) = pw.funcs[q]
@@ -1713,6 +2385,9 @@ def run(ctx: Context):
                   "UnknownURI instead of a refusal", expected=2) as r:
         pw = parse_walk()
         n_pt = 0
+        if pw.by_value:
+            sc_check(r, "cut")
+            n_pt = len(PREFIX)
         NO_PREFIX = ("-",)
         for q in sorted(pw.funcs):
             (fn, di) = pw.funcs[q]
@@ -1929,6 +2604,9 @@ def run(ctx: Context):
         for (fn, di, n, e, tgt, tdi) in pw.reentries:
             calls_by_fn.setdefault(fn.qual, []).append((n, e, tgt, tdi))
         n_pt = 0
+        if pw.by_value:
+            sc_check(r, "leaves")       # helper / recursive calls are executed in place with the string they are given
+            n_pt = len(PREFIX)
 
         def cap_params(tgt, tdi):
             """The parameters of a parse function that reach the strings its prefix / kind tests examine (None: it has
@@ -2119,3 +2797,14 @@ def run(ctx: Context):
                                                     src(fn, via[0][2]) if via else "any argument of the call"))
         if not n_pt:
             raise AnchorVanished("no 'imm.'/'ro.' prefix test in from_string or its helpers")
+
+    # -- 17. no prefix branch / table row raises a permission relative to the context ----------------------
+    # Whatever the shape of the dispatch (if-chain, table of rows, dict, helpers): for every cap class, every alleged
+    # prefix and both contexts, the class from_string accepts must be one the context allows.
+    with ctx.rule("C16.17", "R3", "from_string executed abstractly on <none|'imm.'|'ro.'> + <BASE_STRING of each of the 18 "
+                  "cap classes | no known kind> with deep_immutable False / True (helpers executed in place, module-level "
+                  "tables folded, loops over them unrolled): a writeable class is accepted only with deep_immutable false "
+                  "and no alleged prefix, a mutable read-only class only with deep_immutable false and no 'imm.' - no "
+                  "prefix branch or table row may raise a permission the context has ruled out; every outcome is a parse "
+                  "of a cap class or an UnknownURI", expected=57) as r:
+        sc_check(r, "perm")
